@@ -5,14 +5,21 @@ Lean: Uft/Model/Trunc.lean (trace-data reader), Uft/Model/InfoFile.lean, Uft/Mod
 
 Tie (H3, ASan+UBSan build of the snapshot): for small synthesized data directories, EVERY
 truncation length of every file and the removal of every file, for replay / report / graph /
-dump / dump --chrome / info:
-  * monitor (the property on the implementation's output): no sanitizer report, no hang, no
-    signal, and stdout / exit status / diagnostic equal to those on the copy that the model says is
-    the whole-record prefix of the cut file (`canonical`: re-rendered from the model's parse);
-  * correspondence: the model's prediction for the cut (number of records delivered, error class
-    of info / task.txt, failing info section) against what the implementation shows.
-A failing case is attributed to a finding when the model of the code as found (`fixed = 0`)
-predicts the misbehaviour at exactly that cut (tag -> finding id)."""
+dump / dump --chrome / info (and the --task views on task.txt cuts):
+  * monitor (the property on the implementation's output, independent of the model): no sanitizer
+    report, no hang, no signal, and stdout / exit status / diagnostic equal to those on the copy cut
+    at the last whole record — for a text file the cut at the last newline (`whole`; the model's
+    `wholeLines` / `infoWhole` are compared with it), for <tid>.dat the last whole record;
+  * correspondence: the model with the flags that mirror the tree (`fixed = 1`, `nl` = what the
+    probes of `tree_flags` observe per file kind) against the implementation: its parse re-rendered
+    as a complete file (`canonical`) must give the same output as the cut, and its direct predictions
+    (number of records delivered, error class of info / task.txt, failing info section, symbol names
+    shown by replay) must be what the implementation shows.
+A failing case is attributed to a finding when the model of the code without that repair predicts
+the misbehaviour at exactly that cut: `fixed = 0` (tag -> finding id) for the memory-safety findings,
+`nl = 0` for F18i/t/m/s (the cut is not at a record boundary, the implementation behaves as the
+pre-fix model and differs from the repaired model), `tf0=oob` for F19.  An attributed case is a
+KNOWN-FINDING if known_findings.json has an open entry of that id, a VIOLATION otherwise."""
 import hashlib
 import json
 import os
@@ -35,7 +42,14 @@ CMDS = {
     "dump": ("dump", []),
     "chrome": ("dump", ["--chrome"]),
     "info": ("info", ["-v"]),
+    # the views that use task->t of every task of `info` (F19)
+    "rtask": ("report", ["--task"]),
+    "gtask": ("graph", ["--task"]),
+    "ftask": ("replay", ["-f", "task"]),
 }
+TASK_CMDS = ("rtask", "gtask", "ftask")
+MAIN_CMDS = [c for c in CMDS if c not in TASK_CMDS]
+F18_OF_KIND = {"info": "F18i", "task": "F18t", "map": "F18m", "sym": "F18s"}
 
 # tag of the pre-fix model -> finding id
 FINDING_OF_TAG = {
@@ -69,6 +83,17 @@ FINDING_TEXT = {
            "right after the type)",
     "F16": "dump --chrome: dump_chrome_header() prints find_task(tid)->comm for every tid of `info`; a tid whose "
            "TASK/FORK line is missing from a cut task.txt gives a NULL task (segfault)",
+    "F18i": "info line cut before its newline: the read handlers of cmds/info.c take the incomplete last line as a "
+            "record (a cut value is stored and printed, e.g. `program version : v0.1` for `uftrace_version:v0.17`; "
+            "the commands succeed where the copy cut at the last whole line is rejected)",
+    "F18t": "task.txt line cut before its newline: read_task_txt_file() takes the incomplete last line as a record (a "
+            "task / session built from cut numbers or a cut exename)",
+    "F18m": "map line cut before its newline: read_session_map() takes the incomplete last line as a mapping (cut "
+            "path; addresses are resolved through a mapping that is not completely present)",
+    "F18s": "symbol line cut before its newline: load_module_symbol_file() / check_symbol_file() take the incomplete "
+            "last line as a record (replay prints the cut symbol name, e.g. `l()` for `leaf`)",
+    "F19": "a tid listed in `info` without TASK/FORK line in (a cut) task.txt has no task: report --task, graph --task "
+           "and replay -f task dereference task->t == NULL (segfault)",
 }
 
 
@@ -187,6 +212,23 @@ def dir_notask():
     dr.files["info"] = dr.files["info"].replace(b"taskinfo:nr_tid=1\ntaskinfo:tids=101\n", b"taskinfo:nr_tid=0\ntaskinfo:tids=\n")
     assert b"nr_tid=0" in dr.files["info"]
     dr.tids = []
+    return dr
+
+
+def dir_oldinfo():
+    """an `info` without the utc_offset section (as written before that section existed): its last line is
+    `uftrace_version:…`, which `uftrace info` prints — a cut inside it shows up as a printed value.  Only
+    the info file is cut, only `info` is run."""
+    syms = [(0x1000, 0x100, "main")]
+    dd = D.DataDir(syms, [])
+    dd.tasks = [D.Task(101, [D.Rec(2000, 'E', 0, dd.addr_of("main")), D.Rec(2100, 'X', 0, dd.addr_of("main"))])]
+    dr = Dir("oldinfo", dd, None, None, {})
+    info = bytearray(dr.files["info"])
+    mask = struct.unpack_from("<Q", info, 24)[0]
+    struct.pack_into("<Q", info, 24, mask & ~(1 << 14))
+    info = bytes(info).replace(b"utc_offset:0\n", b"")
+    assert info.endswith(b"uftrace_version:v0.17\n")
+    dr.files["info"] = info
     return dr
 
 
@@ -355,6 +397,7 @@ def parse_model(kind, line):
     if kind == "task":
         r["open"] = w[1].split("=")[1]
         r["chrome"] = w[2].split("=")[1] if len(w) > 2 and w[2].startswith("chrome=") else None
+        r["tf0"] = w[3].split("=")[1] if len(w) > 3 and w[3].startswith("tf0=") else None
         r["items"] = [x.strip().split() for x in line.split("|", 1)[1].split(";") if x.strip()] if w[0] == "ok" else []
     elif kind == "map" and w[0] == "ok":
         r["kb"] = int(w[1].split("=")[1])
@@ -382,7 +425,11 @@ def canonical(dr, fname, kind, m, cut_bytes):
             return cut_bytes[:1]
         return b"".join(r.pack() for r in recs[:m["n"]])
     if kind == "info":
-        return dr.files["info"] if m["status"] == "ok" else cut_bytes
+        # an accepted info file is all of its lines; a reader without C12-F18i also accepts a last line
+        # without its newline: that line, completed, is the record the model delivered (`info_last_value`)
+        if m["status"] == "ok" and not cut_bytes.endswith(b"\n"):
+            return cut_bytes + b"\n"
+        return cut_bytes
     if kind == "task":
         if m["status"] != "ok":
             return cut_bytes
@@ -418,17 +465,33 @@ def canonical(dr, fname, kind, m, cut_bytes):
     raise ValueError(kind)
 
 
-def model_query(dr, fname, kind, fixed, data):
+def model_query(dr, fname, kind, fixed, nl, data):
+    """`fixed`: with the memory-safety repairs (F7 … F17, S2 … S4); `nl`: with C12-F18i/t/m/s"""
     h = data.hex() or "-"
     if kind == "dat":
         return "dat %d %s %s" % (fixed, dr.spec_str(), h)
     if kind == "info":
-        return "info %d %s" % (fixed, h)
+        return "info %d %d %s" % (fixed, nl, h)
     if kind == "task":
-        return "task %d %s %s" % (fixed, ",".join(map(str, dr.tids)) or "-", h)
+        return "task %d %d %s %s" % (fixed, nl, ",".join(map(str, dr.tids)) or "-", h)
     if kind == "map":
-        return "map %d %s" % (fixed, h)
-    return "sym %d %s %s" % (fixed, dr.modname.hex(), h)
+        return "map %d %d %s" % (fixed, nl, h)
+    return "sym %d %d %s %s" % (fixed, nl, dr.modname.hex(), h)
+
+
+INFO_KEYS = ["exename:", "cmdline:", "meminfo:", "uftrace_version:", "utc_offset:", "elapsed_time:"]
+
+
+def info_last_value(m, cut_bytes):
+    """the model accepted an info file whose last line has no newline: the value it stored for that line's
+    key must be the rest of the line (None: nothing to compare / equal; else a description)"""
+    last = cut_bytes[40:].split(b"\n")[-1]
+    for k in INFO_KEYS:
+        if last.startswith(k.encode()):
+            got = unhex(m["kv"].get(k, "-"))
+            want = last[len(k):]
+            return None if got == want else "model stores %r for the cut line %r" % (got, last)
+    return None
 
 
 def prefix_finding(kind, cname, m0, m1):
@@ -527,6 +590,25 @@ def observed_replay(r):
     return ("ok", names)
 
 
+def cut_of(dr, fname, k):
+    """the bytes of job position `k`: a prefix length, or ("nlt", n): the first n bytes completed with a
+    newline (a short but terminated last line: not a truncation — these cases exercise the memory-safety
+    repairs behind the newline test of C12-F18 and are compared with the model only)"""
+    if isinstance(k, tuple):
+        return dr.files[fname][:k[1]] + b"\n"
+    return dr.files[fname][:k]
+
+
+def whole(kind, data):
+    """the text file `data` cut at its last whole record (line with its newline); `info`: behind the 40-byte
+    binary header.  Written independently of the model (`TextScan.wholeLines`, `InfoFile.infoWhole`)."""
+    if kind == "info":
+        if len(data) < 40:
+            return data
+        return data[:40] + whole("text", data[40:])
+    return data[:data.rfind(b"\n") + 1]
+
+
 def whole_records_before(recs, k):
     """independent of the model: how many leading records are completely inside the first k bytes"""
     n, off = 0, 0
@@ -547,27 +629,85 @@ def plan(ctx, dirs):
     for dr in dirs:
         for fname, data in dr.files.items():
             kind = dr.kind(fname)
-            cmds = list(CMDS)
+            cmds = list(MAIN_CMDS)
+            first = 0
             if dr.name == "notask":
                 if kind != "info":
                     continue
                 cmds = ["replay"]
+            elif dr.name == "oldinfo":
+                if kind != "info":
+                    continue
+                cmds = ["info"]
+                first = max(0, len(data) - 80) if quick else 0
             elif quick and dr.name.startswith("rand"):
                 cmds = ["replay", "report", "dump"] if kind == "dat" else []
             elif quick:
                 if kind == "info":
                     cmds = ["info", "replay"] if dr.name == "args" else []
                 elif dr.name == "tasks":
-                    cmds = {"sym": ["replay"], "map": ["replay", "chrome"], "task": ["replay", "chrome"]}.get(kind, cmds)
+                    cmds = {"sym": ["replay"], "map": ["replay", "chrome"],
+                            "task": ["replay", "chrome"] + list(TASK_CMDS)}.get(kind, cmds)
                 elif kind == "task":
                     cmds = ["replay", "report", "dump", "chrome", "info"]
                 elif kind in ("map", "sym"):
                     cmds = ["replay", "report", "dump", "chrome"]
+            elif kind == "task":
+                cmds = cmds + list(TASK_CMDS)
             for c in cmds:
-                jobs.append((dr, fname, None, c))
-                for k in range(len(data) + 1):
+                if first == 0:
+                    jobs.append((dr, fname, None, c))
+                for k in range(first, len(data) + 1):
                     jobs.append((dr, fname, k, c))
+            # every cut line of task.txt / map / .sym completed with a newline.  (Not for `info`: a complete
+            # section line without `lines=N` leaves `lines` uninitialised in read_cpuinfo & co., and a complete
+            # `tids=` line with fewer tids than nr_tid runs into an ASSERT — malformed content that no
+            # truncation produces; the model has error enums there, see Model/InfoFile.lean.)
+            if kind in ("task", "map", "sym") and (dr.name == "args" or (not quick and dr.name == "tasks")):
+                for c in (["replay"] if quick else ["replay", "dump"]):
+                    for k in range(len(data)):
+                        if not data[:k].endswith(b"\n"):
+                            jobs.append((dr, fname, ("nlt", k), c))
+    # corpus/C12/*.json: the witnesses of the findings are always among the cases
+    have = {(dr.name, fname, k, c) for dr, fname, k, c in jobs}
+    byname = {d.name: d for d in dirs}
+    rev = {" ".join((v[0],) + tuple(v[1])): n for n, v in CMDS.items()}
+    cdir = os.path.join(C.VERIF, "corpus", "C12")
+    for fn in sorted(os.listdir(cdir)) if os.path.isdir(cdir) else []:
+        try:
+            w = json.load(open(os.path.join(cdir, fn)))
+            dr, c = byname[w["dir"]], rev[w["cmd"]]
+            if {n: b.hex() for n, b in dr.files.items()} != w["files_hex"]:
+                continue        # a witness of another synthesized directory: only replayable by --replay
+            if (dr.name, w["file"], w["cut"], c) not in have:
+                jobs.insert(0, (dr, w["file"], w["cut"], c))
+        except (KeyError, ValueError, OSError):
+            continue
     return jobs
+
+
+def tree_flags(runner, dr):
+    """Which of the C12-F18 repairs the tree being checked has, per file kind, observed on the
+    implementation: 1 = a last line without its newline is treated as the end of the file.  One run per
+    kind on the `args` directory with a file whose last line is complete but for its newline (map: its
+    first line only): every command succeeds on the complete directory, and replay fails (no task / no
+    mapping / `bar` unresolved: "record missing argument info") once that line is not read."""
+    mapdata = dr.files[dr.mapname]
+    probes = {
+        "info": ("info", dr.files["info"][:-1], "info"),
+        "task": ("task.txt", dr.files["task.txt"][:-1], "replay"),
+        "map": (dr.mapname, mapdata[:mapdata.index(b"\n")], "replay"),
+        "sym": (dr.symname, dr.files[dr.symname][:-1], "replay"),
+    }
+    flags, seen = {}, {}
+    for kind, (fname, data, c) in probes.items():
+        assert not data.endswith(b"\n")
+        fs = dict(dr.files)
+        fs[fname] = data
+        r = runner.run(fs, c, "probe-" + kind)
+        flags[kind] = 0 if r["rc"] == 0 and not r["san"] else 1
+        seen[kind] = {"file": fname, "cmd": c, "rc": r["rc"], "diag": r["diag"][:80], "san": r["san"]}
+    return flags, seen
 
 
 def run(ctx):
@@ -585,7 +725,7 @@ def run(ctx):
     t_build = time.time() - t0
     kf = {f["id"]: f for f in C.known_findings("C12")}
 
-    dirs = [dir_args(), dir_tasks(), dir_notask()]
+    dirs = [dir_args(), dir_tasks(), dir_notask(), dir_oldinfo()]
     # seed-dependent directories: random call trees with string / int / char / event payloads
     dirs += [dir_random(ctx.rng, i) for i in range(6 if ctx.tier == "thorough" else 1)]
     jobs = plan(ctx, dirs)
@@ -597,32 +737,64 @@ def run(ctx):
 
 
 def check(ctx, runner, dirs, jobs, kf, t_build):
-    # ---- model: every (dir, file, cut) with fixed = 1 and fixed = 0 ------------------------
+    # ---- which repairs does the tree have?  (the model is run with the flags that mirror it) ----
+    nl_tree, probe_seen = tree_flags(runner, dirs[0])
+    nl_tree["dat"] = 0          # no such flag for the trace data
+
+    # ---- model: every (dir, file, cut) in three variants --------------------------------------
+    #   rep: fixed = 1, nl = 1            every repair (the theorems of Props/C12.lean, Part 1-3)
+    #   cur: fixed = 1, nl = nl_tree      the mirror of the tree being checked
+    #   old: fixed = 0, nl = nl_tree      the tree without the memory-safety repairs (attribution)
     cuts = {}
     for dr, fname, k, c in jobs:
         cuts.setdefault((dr.name, fname, k), (dr, fname, k))
+    # the copy cut at the last whole line of a text-file cut is itself a cut of the file
+    for key, (dr, fname, k) in list(cuts.items()):
+        kind = dr.kind(fname)
+        if k is None or kind == "dat" or isinstance(k, tuple):
+            continue
+        j = len(whole(kind, dr.files[fname][:k]))
+        cuts.setdefault((dr.name, fname, j), (dr, fname, j))
     qs, keys = [], []
     for key, (dr, fname, k) in cuts.items():
         if k is None:
             continue
         kind = dr.kind(fname)
-        data = dr.files[fname][:k]
-        for fixed in (1, 0):
-            qs.append(model_query(dr, fname, kind, fixed, data))
-            keys.append((key, fixed))
+        data = cut_of(dr, fname, k)
+        variants = {"rep": (1, 1), "cur": (1, nl_tree[kind]), "old": (0, nl_tree[kind])}
+        done = {}
+        for v, fl in variants.items():
+            if fl in done:
+                keys.append((key, v, done[fl]))
+                continue
+            done[fl] = len(qs)
+            keys.append((key, v, len(qs)))
+            qs.append(model_query(dr, fname, kind, fl[0], fl[1], data))
+    # the model's `wholeLines` / `infoWhole` on every text cut
+    wq, wkeys = [], []
+    for key, (dr, fname, k) in cuts.items():
+        kind = dr.kind(fname)
+        if k is None or kind == "dat":
+            continue
+        wq.append("whole %s %s" % ("info" if kind == "info" else "text", cut_of(dr, fname, k).hex() or "-"))
+        wkeys.append(key)
     tm = time.time()
     mout = C.run_model("C12", qs)
+    wout = C.run_model("C12", wq)
     t_model = time.time() - tm
     model = {}
-    for (key, fixed), line in zip(keys, mout):
+    parsed = {}
+    for (key, v, qi) in keys:
         dr, fname, k = cuts[key]
-        model[(key, fixed)] = parse_model(dr.kind(fname), C.norm(line))
+        if qi not in parsed:
+            parsed[qi] = parse_model(dr.kind(fname), C.norm(mout[qi]))
+        model[(key, v)] = parsed[qi]
 
     # the model's parse of the complete map and sym files (for the name oracle)
     fq = []
     for dr in dirs:
-        fq.append(model_query(dr, dr.mapname, "map", 1, dr.files[dr.mapname]))
-        fq.append(model_query(dr, dr.symname, "sym", 1, dr.files[dr.symname]))
+        fq.append(model_query(dr, dr.mapname, "map", 1, 1, dr.files[dr.mapname]))
+        fq.append(model_query(dr, dr.symname, "sym", 1, 1, dr.files[dr.symname]))
     fo = C.run_model("C12", fq)
     for i, dr in enumerate(dirs):
         dr.full_models = {"map": parse_model("map", C.norm(fo[2 * i])), "sym": parse_model("sym", C.norm(fo[2 * i + 1]))}
@@ -632,50 +804,52 @@ def check(ctx, runner, dirs, jobs, kf, t_build):
         dr.f14 = False
         for fname in dr.files:
             if dr.kind(fname) == "dat":
-                m0 = model.get(((dr.name, fname, len(dr.files[fname])), 0))
+                m0 = model.get(((dr.name, fname, len(dr.files[fname])), "old"))
                 if m0 and any(x[8] == "0" for x in m0["recs"]):
                     dr.f14 = True
 
-    # ---- implementation: the cut copies and their canonical forms ---------------------------
-    canon_cache = {}
-    tasks = []        # (key, cmd, kind, which, files, tag)
-    for i, (dr, fname, k, c) in enumerate(jobs):
-        key = (dr.name, fname, k)
-        kind = dr.kind(fname)
-        fs = dict(dr.files)
+    # ---- implementation: the cut copies, their whole-record copies and canonical forms -------
+    runs = {}         # (dir, fname, cmd, content | None) -> result
+
+    def need(dr, fname, c, content):
+        rk = (dr.name, fname, c, content)
+        if rk not in runs:
+            runs[rk] = None
+        return rk
+
+    def refs(dr, fname, kind, k):
+        """-> (cut, whole-record copy (the monitor's reference), canonical form of the mirror model's parse)"""
+        cut = cut_of(dr, fname, k)
+        m_cur = model[((dr.name, fname, k), "cur")]
+        cb = canonical(dr, fname, kind, m_cur, cut)
+        wb = cb if kind == "dat" else whole(kind, cut)
+        return cut, wb, cb
+    for dr, fname, k, c in jobs:
         if k is None:
-            fs[fname] = None
-            tasks.append(((key, c), "cut", fs, "j%d" % i))
+            need(dr, fname, c, None)
             continue
-        fs[fname] = dr.files[fname][:k]
-        tasks.append(((key, c), "cut", fs, "j%d" % i))
-        m1 = model[(key, 1)]
-        cb = canonical(dr, fname, kind, m1, fs[fname])
-        ck = (dr.name, fname, c, cb)
-        if cb == fs[fname]:
-            continue        # the cut file is its own whole-record prefix
-        if ck not in canon_cache:
-            canon_cache[ck] = None
-            fs2 = dict(dr.files)
-            fs2[fname] = cb
-            tasks.append((ck, "canon", fs2, "c%d" % i))
-    results = {}
+        cut, wb, cb = refs(dr, fname, dr.kind(fname), k)
+        need(dr, fname, c, cut)
+        need(dr, fname, c, wb)
+        need(dr, fname, c, cb)
+    byname = {d.name: d for d in dirs}
 
     def one(t):
-        k, which, fs, tag = t
-        return (k, which, runner.run(fs, k[1] if which == "cut" else k[2], tag))
+        i, rk = t
+        fs = dict(byname[rk[0]].files)
+        fs[rk[1]] = rk[3]
+        return rk, runner.run(fs, rk[2], "j%d" % i)
     tr = time.time()
     with ThreadPoolExecutor(14) as ex:
-        for k, which, r in ex.map(one, tasks):
-            if which == "canon":
-                canon_cache[k] = r
-            else:
-                results[k] = r
-
+        for rk, r in ex.map(one, list(enumerate(runs))):
+            runs[rk] = r
     t_runs = time.time() - tr
+
     # ---- compare -----------------------------------------------------------------------------
-    stats = {"runs": len(tasks), "cuts": len([1 for k in cuts if k[2] is not None]), "monitor_fail": 0, "disagree": 0,
-             "by_finding": {}, "benign_ub_runs": 0, "san": 0, "hang": 0}
+    stats = {"runs": len(runs) + len(probe_seen), "cuts": len([1 for k in cuts if k[2] is not None and not isinstance(k[2], tuple)]),
+             "newline_completed_cuts": len([1 for k in cuts if isinstance(k[2], tuple)]), "monitor_fail": 0,
+             "disagree": 0, "by_finding": {}, "benign_ub_runs": 0, "san": 0, "hang": 0, "not_at_record_boundary": 0,
+             "prefix_model_differs": 0}
     distinct = set()
     samples = []
     reported = {}
@@ -690,12 +864,33 @@ def check(ctx, runner, dirs, jobs, kf, t_build):
         else:
             C.violation(ctx, "%s-%d" % (fid, reported[fid]), obj, no_failing_input=nfi)
 
+    # the model's whole-line cut against the independent one; the theorems of Part 3 on the compiled model
+    for key, line in zip(wkeys, wout):
+        dr, fname, k = cuts[key]
+        kind = dr.kind(fname)
+        cut = cut_of(dr, fname, k)
+        wb = whole(kind, cut)
+        if unhex(C.norm(line) or "-") != wb:
+            stats["disagree"] += 1
+            report("correspondence", "model-code-disagreement",
+                   {"kind": "model-code-disagreement", "dir": dr.name, "file": fname, "cut": k,
+                    "what": "the model's copy cut at the last whole line (%s) is not the file cut at its last newline"
+                            % ("infoWhole" if kind == "info" else "wholeLines")}, nfi=True)
+        mw = None if isinstance(k, tuple) else model.get(((dr.name, fname, len(wb)), "rep"))
+        if mw is not None and mw["raw"] != model[(key, "rep")]["raw"]:
+            stats["disagree"] += 1
+            report("correspondence", "model-code-disagreement",
+                   {"kind": "theorem-vs-compiled-model", "dir": dr.name, "file": fname, "cut": k,
+                    "what": "the compiled model with nl = 1 reads the cut and its whole-line copy differently",
+                    "theorem": "c12_text_cut_equals_last_whole_line / c12_info_cut_equals_last_whole_line"}, nfi=True)
+
     for dr, fname, k, c in jobs:
         key = (dr.name, fname, k)
         kind = dr.kind(fname)
-        r = results[(key, c)]
+        r = runs[(dr.name, fname, c, None if k is None else cut_of(dr, fname, k))]
         stats["benign_ub_runs"] += 1 if r["benign_ub"] else 0
-        base = {"dir": dr.name, "file": fname, "cut": k, "size": len(dr.files[fname]), "cmd": " ".join((CMDS[c][0],) + tuple(CMDS[c][1])),
+        base = {"dir": dr.name, "file": fname, "cut": k[1] if isinstance(k, tuple) else k, "append_newline": isinstance(k, tuple),
+                "size": len(dr.files[fname]), "cmd": " ".join((CMDS[c][0],) + tuple(CMDS[c][1])),
                 "files_hex": {n: b.hex() for n, b in dr.files.items()},
                 "impl": {"rc": r["rc"], "san": r["san"], "diag": r["diag"], "stdout": r["out"][:1500]}}
         if k is None:
@@ -708,12 +903,16 @@ def check(ctx, runner, dirs, jobs, kf, t_build):
                        dict(base, kind="property-violated-on-implementation",
                             what="removing %s: %s" % (fname, r["san"] or "no diagnostic / bad exit status")))
             continue
-        m1, m0 = model[(key, 1)], model[(key, 0)]
-        cb = canonical(dr, fname, kind, m1, dr.files[fname][:k])
-        rc_ = r if cb == dr.files[fname][:k] else canon_cache[(dr.name, fname, c, cb)]
+        m_rep, m1, m0 = model[(key, "rep")], model[(key, "cur")], model[(key, "old")]
+        cut, wb, cb = refs(dr, fname, kind, k)
+        r_w = runs[(dr.name, fname, c, wb)]       # on the copy cut at the last whole record
+        r_c = runs[(dr.name, fname, c, cb)]       # on the mirror model's parse, re-rendered
+        at_boundary = kind == "dat" or wb == cut
+        stats["not_at_record_boundary"] += 0 if at_boundary else 1
+        stats["prefix_model_differs"] += 1 if m1["raw"] != m_rep["raw"] else 0
         distinct.add((dr.name, fname, c, r["rc"], r["san"], hashlib.md5(r["out"].encode()).hexdigest()[:8], r["diag"][:30],
                       m1["raw"][:40]))
-        if len(samples) < 5 and (k * 7 + len(c)) % 211 == 3:
+        if len(samples) < 5 and not isinstance(k, tuple) and (k * 7 + len(c)) % 211 == 3:
             samples.append({"dir": dr.name, "file": fname, "cut": k, "cmd": c, "model": m1["raw"][:200],
                             "impl": {"rc": r["rc"], "diag": r["diag"], "stdout": r["out"][:200]}})
         # monitor: the property itself
@@ -726,11 +925,14 @@ def check(ctx, runner, dirs, jobs, kf, t_build):
             bad = "exit status %d" % r["rc"]
         elif r["rc"] != 0 and not r["diag"]:
             bad = "non-zero exit status without a diagnostic"
-        elif not same(r, rc_):
-            bad = "output differs from the output on the whole-record prefix (%s)" % (
-                "file removed" if cb is None else "%d bytes" % len(cb))
-        # correspondence: model prediction vs implementation
+        elif not same(r, r_w):
+            bad = "output differs from the output on the copy cut at the last whole record (%s)" % (
+                "file removed" if wb is None else "%d bytes" % len(wb))
+        # correspondence: prediction of the model that mirrors the tree vs implementation
         dis = None
+        if not r["san"] and not same(r, r_c):
+            dis = "output differs from the output on the model's parse re-rendered as a complete file (%s)" % (
+                "file removed" if cb is None else "%d bytes" % len(cb))
         if kind == "dat":
             recs = dr.dd.tasks[[("%d.dat" % t.tid) for t in dr.dd.tasks].index(fname)].records
             wn = whole_records_before(recs, k)
@@ -744,6 +946,8 @@ def check(ctx, runner, dirs, jobs, kf, t_build):
             if m1["status"] == "ok":
                 if "cannot read" in r["diag"]:
                     dis = "model accepts the info file, implementation: " + r["diag"]
+                elif not cut.endswith(b"\n"):
+                    dis = info_last_value(m1, cut) or dis
             else:
                 want = "cannot read header data" if "header_data" in m1["tag"] else "cannot read uftrace header info!"
                 if want not in r["diag"]:
@@ -766,34 +970,50 @@ def check(ctx, runner, dirs, jobs, kf, t_build):
                 dis = "replay: the model's parse of the %s file predicts %r, the implementation shows %r" % (kind, want, got)
         if not bad and not dis:
             continue
-        fid = prefix_finding(kind, c, m0, m1) if kind != "info" or m0["status"] == "oob" else None
-        if kind == "info" and m0["status"] == "oob":
-            fid = FINDING_OF_TAG.get(m0["tag"], "?")
+        # which finding does the model of the code without a repair predict at this cut?
+        fid = None
+        if kind == "task" and c in TASK_CMDS and r["san"] and m1["status"] == "ok" and m1["open"] == "ok" and m1.get("tf0") == "oob":
+            fid = "F19"
+        elif bad and not dis and not r["san"] and not at_boundary and nl_tree[kind] == 0 and m1["raw"] != m_rep["raw"]:
+            # the implementation is what the pre-fix model says (no disagreement with `cur`), the repaired
+            # model differs, and the cut is not at a record boundary: the F18 shape of this file kind
+            fid = F18_OF_KIND[kind]
+        elif kind == "info":
+            fid = FINDING_OF_TAG.get(m0["tag"], "?") if m0["status"] == "oob" else None
+        else:
+            fid = prefix_finding(kind, c, m0, m1)
         if fid is None and c == "dump" and dr.f14 and (r["san"] or "").startswith("ASAN:heap-buffer-overflow"):
             fid = "F14"
         if bad:
             stats["monitor_fail"] += 1
             obj = dict(base, kind="property-violated-on-implementation", what=bad,
-                       model_fixed=m1["raw"][:400], model_as_found=m0["raw"][:400],
-                       expected={"rc": rc_["rc"], "diag": rc_["diag"], "stdout": rc_["out"][:1500]},
-                       matches_prefix_model=fid, finding=FINDING_TEXT.get(fid), theorem="c12_cut_equals_whole_prefix / c12_parsers_total_in_bounds")
+                       whole_record_copy_bytes=None if wb is None else len(wb), cut_at_record_boundary=at_boundary,
+                       tree_flags=nl_tree,
+                       model_repaired=m_rep["raw"][:400], model_mirror=m1["raw"][:400], model_as_found=m0["raw"][:400],
+                       expected={"rc": r_w["rc"], "diag": r_w["diag"], "stdout": r_w["out"][:1500]},
+                       matches_prefix_model=fid, finding=FINDING_TEXT.get(fid),
+                       theorem="c12_cut_equals_whole_prefix / c12_parsers_total_in_bounds / "
+                               "c12_text_cut_equals_last_whole_line / c12_info_cut_equals_last_whole_line / c12_task_fields_total")
             report(fid or "unexplained", "property", obj)
-        else:
+        if dis and not (bad and fid):
             stats["disagree"] += 1
             report("correspondence", "model-code-disagreement",
-                   dict(base, kind="model-code-disagreement", what=dis, model_fixed=m1["raw"][:400]), nfi=True)
+                   dict(base, kind="model-code-disagreement", what=dis, tree_flags=nl_tree, model_mirror=m1["raw"][:400]),
+                   nfi=True)
 
     # the complete info file: parsed values against `uftrace info`
     for dr in dirs:
         key = (dr.name, "info", len(dr.files["info"]))
-        if (key, 1) not in model or (key, "info") not in results:
+        rk = (dr.name, "info", "info", dr.files["info"])
+        if (key, "rep") not in model or runs.get(rk) is None:
             continue
-        m1, r = model[(key, 1)], results[(key, "info")]
+        m1, r = model[(key, "rep")], runs[rk]
         if m1["status"] != "ok" or r["rc"] != 0:
             continue
         kv = m1["kv"]
         want = {"exe image": unhex(kv.get("exename:", "-")).decode("latin1"),
                 "cmdline": unhex(kv.get("cmdline:", "-")).decode("latin1"),
+                "program version": unhex(kv.get("uftrace_version:", "-")).decode("latin1"),
                 "number of tasks": kv.get("nr_tid")}
         if "" in r["out"].rstrip("\n").split("\n"):
             stats["disagree"] += 1
@@ -814,10 +1034,17 @@ def check(ctx, runner, dirs, jobs, kf, t_build):
         "distinct_nontrivial": len(distinct),
         "rule": "exhaustive: every truncation length 0..size of every file (and the removal of each file) of "
                 "%d synthesized directories x the commands listed in `plan` (quick: all 6 on every .dat of the two "
-                "fixed directories, 4-5 commands on the args directory's task/map/sym, 1-2 on the tasks directory's, "
-                "info+replay on info cuts, replay/report/dump on the .dat files of one random "
-                "directory drawn from the seed; thorough: all 6 commands everywhere + 6 random directories); "
+                "fixed directories, 4-5 commands on the args directory's task/map/sym, 1-2 on the tasks directory's "
+                "(+ report --task, graph --task, replay -f task on its task.txt), info+replay on info cuts, `info` on the "
+                "last 80 cuts of an info file that ends with the version line, replay/report/dump on the .dat files of "
+                "one random directory drawn from the seed; thorough: all 6 commands everywhere + 6 random directories); "
+                "every cut of the args directory's task/map/sym completed with a newline (replay); each cut is run, "
+                "and so are its copy cut at the last whole record and the mirror model's parse re-rendered as a file; "
                 "distinct = distinct (dir, file, cmd, exit, sanitizer, stdout hash, diagnostic, model result)" % len(dirs),
+        "tree_flags": {"nl": {k2: v for k2, v in nl_tree.items() if k2 != "dat"}, "probes": probe_seen},
+        "cuts_not_at_a_record_boundary": stats["not_at_record_boundary"],
+        "cut_lines_completed_with_a_newline": stats["newline_completed_cuts"],
+        "cases_where_mirror_and_repaired_model_differ": stats["prefix_model_differs"],
         "cut_points": stats["cuts"], "monitor_failures_on_impl": stats["monitor_fail"],
         "model_code_disagreements": stats["disagree"], "attributed": stats["by_finding"],
         "sanitizer_or_hang_runs": stats["san"], "hangs": stats["hang"],
@@ -832,9 +1059,13 @@ def check(ctx, runner, dirs, jobs, kf, t_build):
         "little-endian 64-bit data (no byte swapping), no build-id / kernel / perf data in the directories",
         "UBSan's nonnull-attribute reports for bsearch/qsort(NULL, 0, ...) on an empty symbol table are counted, not "
         "treated as violations",
-        "a last line without a newline is a line (fgets/getline semantics): the model accepts it as the code does",
+        "a record of a text file is a line with its newline; the tree's handling of a last line without one is observed "
+        "per file kind (coverage.tree_flags: 1 = end of file, C12-F18 applied; 0 = taken as a line) and the model is run "
+        "with the same flags",
     ]
-    ctx.notes.append("findings with open patches in /verif/proposed_fixes/C12-*.diff: " + ", ".join(sorted(FINDING_TEXT)))
+    ctx.notes.append("findings with patches in /verif/proposed_fixes/C12-*.diff: " + ", ".join(sorted(FINDING_TEXT)))
+    ctx.notes.append("tree flags observed (1 = C12-F18 repair present): " + ", ".join(
+        "%s=%d" % (k2, v) for k2, v in sorted(nl_tree.items()) if k2 != "dat"))
     return C.finish(ctx)
 
 
@@ -855,7 +1086,7 @@ def replay(ctx, path):
         if n == r["file"]:
             if r["cut"] is None:
                 continue
-            b = b[:r["cut"]]
+            b = b[:r["cut"]] + (b"\n" if r.get("append_newline") else b"")
         open(os.path.join(d, n), "wb").write(b)
     cmd = r["cmd"].split()
     rc, out, err = D.run_uftrace(os.path.join(ctx.src, "uftrace"), cmd[0], d, cmd[1:], timeout=10, env=UB_ENV_REPLAY)
